@@ -384,9 +384,11 @@ class Model:
                                      np.int32, np.int64)):
                 raise TypeError('Shape values must be integers!')
         new_shape = tuple(np.array(shape).astype(int))
+        if any(item < 0 for item in new_shape):
+            raise ValueError('Shape values must be non-negative.')
 
         vtype = vtype.upper()
-        if 'C' not in vtype and 'B' not in vtype and 'I' not in vtype:
+        if len(vtype) == 0 or any(letter not in 'CBI' for letter in vtype):
             raise ValueError('Unknown variable type.')
         if len(vtype) != 1 and len(vtype) != np.prod(shape):
             raise ValueError('Inconsistent variables and their types.')
